@@ -286,7 +286,9 @@ def _parse_directive_options(
             value = None
         try:
             converted_value = converter(value)
-        except (ValueError, TypeError) as error:
+        except Exception as error:
+            # converters should raise ValueError or TypeError for invalid values,
+            # but some raise other exceptions (e.g. AttributeError for an empty value)
             validation_errors.append(
                 ParseWarnings(
                     f"Invalid option value for {name!r}: {value}: {error}",
